@@ -243,6 +243,13 @@ func (x *Exec) checkRun(rec *StepRecord) {
 	}
 	if rec.Killed {
 		x.checkKilled(rec)
+		if rec.Pre["gengo.sum"] != rec.Post["gengo.sum"] {
+			// the process died inside the save of gengo.sum (the trace is lost with it): every package
+			// of the run had been completed before the save began
+			for _, pi := range rec.Local {
+				x.Model.MarkDone(m.ImportPath(pi), rec.Content[m.ImportPath(pi)])
+			}
+		}
 		x.Model.AfterExternal(x.Root)
 		return
 	}
@@ -250,7 +257,26 @@ func (x *Exec) checkRun(rec *StepRecord) {
 		return
 	}
 	if resp.Panic != "" {
-		x.violate(x.Sc.Property, "X0", "panic", firstLine(resp.Panic), nil)
+		if x.W != nil {
+			x.W.Close() // the worker exits after reporting a panic
+			x.W = nil
+		}
+		injected := false
+		for _, f := range resp.Fired {
+			if strings.HasSuffix(f, ":gen-panic") {
+				injected = true
+			}
+		}
+		if !injected {
+			x.violate(x.Sc.Property, "X0", "panic", firstLine(resp.Panic), nil)
+		} else {
+			// the process died by a panic inside a generator callback, i.e. before the save
+			x.afterCrash = true
+			x.Env.Stats.Add("fault/panic-fired", 1)
+			if run.Args.All && rec.Pre["gengo.sum"] != rec.Post["gengo.sum"] {
+				x.violate("C02", "E3", "sum-changed-by-panicking-run", fmt.Sprintf("%s -> %s (the process died by a panic in a generator)", short(rec.Pre["gengo.sum"]), short(rec.Post["gengo.sum"])), nil)
+			}
+		}
 		x.Model.AfterExternal(x.Root)
 		return
 	}
@@ -482,6 +508,8 @@ func (x *Exec) checkRun(rec *StepRecord) {
 				why = "skipped-although-hash-not-recorded"
 			case !x.Model.Vouches(ip, lineHashes, rec.Content[ip]):
 				why = "skipped-although-directory-changed"
+			case !x.Model.IsDone(ip, rec.Content[ip]):
+				why = "skipped-although-never-generated-for-this-content"
 			}
 			if why != "" {
 				x.violate("C08", "S1", why, fmt.Sprintf("package %s was not regenerated", ip), map[string]string{"unhashable": fmt.Sprint(rec.Hload[ip] == "")})
@@ -520,7 +548,37 @@ func (x *Exec) checkRun(rec *StepRecord) {
 			x.checkSum(rec)
 		}
 	}
+	x.markDone(rec, success)
 	x.Model.AfterExternal(x.Root)
+}
+
+// markDone updates the model with the packages whose generation completed in
+// this run: all executed ones if Execute succeeded; otherwise those after which
+// gengo moved on to the next package or to saving gengo.sum.
+func (x *Exec) markDone(rec *StepRecord, success bool) {
+	m := x.Sc.Module
+	if rec.Resp == nil {
+		return
+	}
+	var order []string // packages in processing order, then "" for the start of the sum save
+	for _, e := range rec.Resp.Events {
+		switch {
+		case e.Kind == "new" && e.Gen == "probe":
+			order = append(order, e.Pkg)
+		case e.Kind == "os.open" && e.Path == "gengo.sum" && e.Exec >= 0 && e.N&(os.O_WRONLY|os.O_RDWR) != 0:
+			order = append(order, "")
+		}
+	}
+	for i, p := range order {
+		if p == "" {
+			continue
+		}
+		if success || i+1 < len(order) {
+			if m.PkgByPath(p) >= 0 {
+				x.Model.MarkDone(p, rec.Content[p])
+			}
+		}
+	}
 }
 
 func short(fp string) string {
